@@ -1,6 +1,7 @@
 // one file per component; `dispatch` routes a protocol op to it
 pub mod base64;
 pub mod serve;
+pub mod pool;
 pub mod range;
 pub mod cors;
 
@@ -15,6 +16,7 @@ pub fn dispatch(op: &str, f: &[String]) -> String {
 pub fn run_mode(mode: &str, _args: &[String]) -> bool {
     match mode {
         "serve" => { serve::serve_loop(); true }
+        "pool" => { pool::run(_args); true }
         _ => false,
     }
 }
